@@ -716,8 +716,17 @@ def r7_not_a_time_is_rejected(repo=None):
         raise AnalysisError("%s: the method that turns a regex match into acceptance was not found exactly once (%s)" % (H, [a[0] for a in accept]))
     name, f, iff = accept[0]
     q = "%s.%s" % (H, name)
-    form = pybool.truth(iff.test)
-    helpers = [c for c in ast.walk(iff.test) if isinstance(c, ast.Call) and isinstance(c.func, ast.Attribute)
+    # the acceptance condition: the tests of all enclosing `if`s of the accepting statement (an `if a and b:` may be written nested)
+    acc_stmt = [x for x in iff.body if (isinstance(x, ast.Assign) and pyfront.const(x.value) is True) or
+                (isinstance(x, ast.Return) and pyfront.const(x.value) is True)][0]
+    form = pybool.path_condition(acc_stmt, m.parents, f)
+    tests_ = []
+    p_ = m.parents.get(acc_stmt)
+    while p_ is not None and p_ is not f:
+        if isinstance(p_, ast.If):
+            tests_.append(p_.test)
+        p_ = m.parents.get(p_)
+    helpers = [c for t_ in tests_ for c in ast.walk(t_) if isinstance(c, ast.Call) and isinstance(c.func, ast.Attribute)
                and isinstance(c.func.value, ast.Name) and c.func.value.id == "self" and "%s.%s" % (H, c.func.attr) in m.functions]
 
     def rejecting(hq):
@@ -757,13 +766,24 @@ def r7_not_a_time_is_rejected(repo=None):
             r.ok(site, "acceptance implies `%s`, which is false whenever the %s built from the match raised" % (
                 norm(ast.unparse(c)), "datetime" if what == "date" else "timedelta"))
         else:
-            # a guarded construction somewhere in the handler that this rule could not tie to the acceptance: not decided
+            # a guarded construction in the accepting method or a helper it (transitively) calls that this rule could not tie to the
+            # acceptance: not decided.  A validity helper that exists but is never called from there is no excuse.
+            reachable, todo = [], [f]
+            while todo:
+                f_ = todo.pop()
+                if any(f_ is x for x in reachable):
+                    continue
+                reachable.append(f_)
+                for c_ in ast.walk(f_):
+                    if isinstance(c_, ast.Call) and isinstance(c_.func, ast.Attribute) and isinstance(c_.func.value, ast.Name) \
+                            and c_.func.value.id == "self" and c_.func.attr in m.methods(H):
+                        todo.append(m.methods(H)[c_.func.attr])
             exc = "ValueError" if what == "date" else "OverflowError"
             ctor = "datetime.datetime" if what == "date" else "datetime.timedelta"
             guarded_somewhere = any(
                 isinstance(t_, ast.Try) and any(h_.type is not None and exc in ast.unparse(h_.type) for h_ in t_.handlers)
                 and any(isinstance(c_, ast.Call) and pyfront.call_name(c_) == ctor for st_ in t_.body for c_ in ast.walk(st_))
-                for f_ in m.methods(H).values() for t_ in ast.walk(f_))
+                for f_ in reachable for t_ in ast.walk(f_))
             if guarded_somewhere:
                 raise AnalysisError("%s: a %s construction guarded against %s exists in the handler but the acceptance condition `%s` "
                                     "was not shown to imply it" % (q, ctor, exc, norm(ast.unparse(iff.test))[:60]))
